@@ -13,6 +13,7 @@ import (
 	"os"
 	"path/filepath"
 	"regexp"
+	"sort"
 	"strconv"
 	"strings"
 
@@ -481,6 +482,12 @@ func (env *SpecEnv) eval(e ast.Expr) Val {
 		if v, ok := env.pkgObject(env.pkg, x.Name); ok {
 			return v
 		}
+		// a name of another module package (spec functions expanded across packages): unique match
+		for _, pp := range vc.eng.modulePkgs() {
+			if v, ok := env.pkgObject(pp, x.Name); ok {
+				return v
+			}
+		}
 		specErr("unknown identifier %s", x.Name)
 	case *ast.UnaryExpr:
 		v := env.eval(x.X)
@@ -677,9 +684,22 @@ func (env *SpecEnv) field(base Val, name string) Val {
 		return Val{t: vc.subRef(t, idx, base.t), typ: types.NewPointer(ft)}
 	}
 	l, li := locField(t, idx)
-	return env.inState(func() Val {
+	v := env.inState(func() Val {
 		return Val{t: f.readAddr(&Addr{kind: "F", loc: l, li: li, ref: base.t}), typ: ft}
 	})
+	// values read from the heap satisfy their type invariant (w.r.t. that state's allocation frontier)
+	if !strings.Contains(v.t, "?") {
+		switch ft.Underlying().(type) {
+		case *types.Slice, *types.Pointer, *types.Map, *types.Interface:
+			key := "tinv:" + v.t
+			if !vc.sc.declSet[key] {
+				vc.sc.declSet[key] = true
+				front := vc.he.get(env.st, "ALLOC", "Int")
+				vc.sc.assume(vc.te.typeInv(ft, v.t, 0, front))
+			}
+		}
+	}
+	return v
 }
 
 func (env *SpecEnv) pkgObject(pkgPath, name string) (Val, bool) {
@@ -785,6 +805,23 @@ func (env *SpecEnv) call(x *ast.CallExpr) Val {
 			specErr("unknown type %q", ts)
 		}
 		return Val{t: eq(app("i_tag", v.t), fmt.Sprint(vc.te.tagOf(t))), typ: boolT}
+	case "offof": // offset of a slice inside its backing array
+		v := env.rv(env.eval(x.Args[0]))
+		return Val{t: app("s_off", v.t), typ: intT}
+	case "absat": // absat(s, k): element at absolute index k of the backing array of s (non-struct elements)
+		v := env.rv(env.eval(x.Args[0]))
+		k := env.rv(env.eval(x.Args[1]))
+		st, ok := v.typ.Underlying().(*types.Slice)
+		if !ok || isStruct(st.Elem()) {
+			specErr("absat on %s", v.typ)
+		}
+		l, li := locElem(st.Elem())
+		return env.inState(func() Val {
+			return Val{t: f.readAddr(&Addr{kind: "E", loc: l, li: li, ref: app("s_arr", v.t), idx: k.t}), typ: st.Elem()}
+		})
+	case "arrof": // backing-array reference of a slice (0 for a nil slice)
+		v := env.rv(env.eval(x.Args[0]))
+		return Val{t: app("s_arr", v.t), typ: intT}
 	case "isnil":
 		v := env.rv(env.eval(x.Args[0]))
 		switch v.typ.Underlying().(type) {
@@ -831,8 +868,31 @@ func (env *SpecEnv) call(x *ast.CallExpr) Val {
 			return env.pureCall(fn, args)
 		}
 	}
+	for _, pp := range vc.eng.modulePkgs() {
+		if p := vc.eng.prog.ImportedPackage(pp); p != nil {
+			if fn := p.Func(name); fn != nil {
+				var args []Val
+				for _, a := range x.Args {
+					args = append(args, env.rv(env.eval(a)))
+				}
+				return env.pureCall(fn, args)
+			}
+		}
+	}
 	specErr("unknown function %s (package %s)", name, pkg)
 	return Val{}
+}
+
+func (e *Engine) modulePkgs() []string {
+	if e.modPkgs == nil {
+		for _, p := range e.prog.AllPackages() {
+			if isModPath(p.Pkg.Path()) {
+				e.modPkgs = append(e.modPkgs, p.Pkg.Path())
+			}
+		}
+		sort.Strings(e.modPkgs)
+	}
+	return e.modPkgs
 }
 
 func (env *SpecEnv) methodCall(recv Val, name string, argExprs []ast.Expr) Val {
